@@ -26,7 +26,7 @@ VALUES = {
     'i': [0, -1, 2**31 - 1, -2**31],
     'u': [0, 7, 2**32 - 1],
     'y': [0, 255, 7],
-    'b': [True, False],
+    'b': [True, False, 1, 0],       # a flag computed as flags & 1 is a value of a boolean property too
     'd': [0.5, -2.0, 1e300],
     'x': [-2**63, 5, 2**40],
     't': [0, 2**64 - 1],
